@@ -139,6 +139,23 @@ def run_pairs(ctx):
                     if is_exc(u):
                         continue
                     check_views(ctx, u, {"s": s, "encoded": True, "comp": comp}, (comp, "single", b1 >> 3, ctxt))
+    # the TAIL (and head) of a raw component: every string of up to three symbols over {'%', '+', a hex digit, a letter, a complete
+    # escape, a truncated multi-byte escape, a space} at the very end / start - where a decoder runs out of look-ahead
+    if ctx.mine(0):
+        import itertools
+
+        alpha = ["%", "+", "4", "a", "%41", "%e9", " ", "%E2%82"]
+        for L in (1, 2, 3):
+            for tup in itertools.product(alpha, repeat=L):
+                tail = "".join(tup)
+                for t in ("x" + tail, tail + "x", tail):
+                    for comp in COMPS:
+                        s = url_with_raw(comp, t)
+                        u = guarded(URL, s, encoded=True)
+                        if is_exc(u):
+                            continue
+                        check_views(ctx, u, {"s": s, "encoded": True, "comp": comp}, (comp, "tail", L, tup[-1]))
+        ctx.count("tail_kernel_done")
     ctx.sample({"s": url_with_raw("qkv", "%E2%82%ac"), "encoded": True})
     ctx.notes["pairs_done"] = i
 
